@@ -1,3 +1,840 @@
+//! Target `guards`: for every call of an `unsafe fn` of engine/src/ann_backend.rs (the `*_unchecked`
+//! accessors and the unsafe forwarders), find what in the enclosing function makes each id / index
+//! argument valid: a dominating `if x as usize >= node_count { continue }`, a loop bound obtained from
+//! `count_unchecked`, an `if idx + K < neighbor_count`, provenance from a heap / Vec that is only ever
+//! filled with guarded ids, an early `return`, or (inside an unsafe fn) a forwarded parameter whose
+//! obligation moves to the callers.  "none found" => Guards_gen.v records GNone and xl17 exits 2.
 use crate::util::*;
-pub struct Out { pub coq: String, pub report: serde_json::Value }
-pub fn run(_repo: &str) -> Res<Out> { fail_at(0, "", "not implemented") }
+use serde_json::json;
+use std::collections::{BTreeMap, BTreeSet};
+use syn::{Expr, Pat, Stmt};
+
+fn norm(s: &str) -> String {
+    let mut t = s.replace(' ', "");
+    for suf in ["asusize", "asu64"] {
+        t = t.replace(suf, "");
+    }
+    // strip redundant outer parens
+    while t.starts_with('(') && t.ends_with(')') && balanced(&t[1..t.len() - 1]) {
+        t = t[1..t.len() - 1].to_string();
+    }
+    t
+}
+fn balanced(s: &str) -> bool {
+    let mut d = 0i32;
+    for c in s.chars() {
+        if c == '(' {
+            d += 1
+        }
+        if c == ')' {
+            d -= 1;
+            if d < 0 {
+                return false;
+            }
+        }
+    }
+    d == 0
+}
+fn ntxt(e: &Expr) -> String {
+    norm(&quote::ToTokens::to_token_stream(e).to_string())
+}
+
+#[derive(Clone, Debug)]
+enum Bind {
+    NodeCountAlias(String),                       // let node_count = self.len();
+    ForRange { var: String, hi: String },         // for idx in 0..hi
+    CountOf { var: String, id: String },          // let n = unsafe { self.level0.count_unchecked(id) }
+    PopFrom { var: String, heap: String },        // while let Some(var) = heap.pop()
+    IterOf { var: String, coll: String },         // for &var in coll.iter() / for &(var, _) in coll.iter().take(..)
+    Param(String),
+    TupleFromCall { var: String, callee: String }, // let (var, _) = self.callee(..)
+    FirstOf { var: String, coll: String },        // if let Some(&(var, _)) = coll.first()
+    Other(String),
+}
+#[derive(Clone, Debug)]
+struct Fact {
+    lhs: String,
+    rhs: String, // lhs < rhs
+    line: usize,
+    how: String,
+}
+#[derive(Clone, Debug, Default)]
+struct Ctx {
+    binds: Vec<Bind>,
+    facts: Vec<Fact>,
+    prepared: Vec<(String, usize)>, // scratch.prepare(node_count, ..) seen: (arg text, line)
+    cleared: Vec<(String, usize)>,  // coll.clear() seen at any point before
+}
+
+#[derive(Clone, Debug)]
+struct Site {
+    func: String,
+    func_unsafe: bool,
+    callee: String,
+    line: usize,
+    args: Vec<(String, String, String, String)>, // (param name, role, kind, explanation)
+}
+
+struct FnInfo<'f> {
+    name: String,
+    owner: String,
+    unsafe_: bool,
+    params: Vec<(String, String)>,
+    block: &'f syn::Block,
+    line: usize,
+}
+
+struct An<'a, 'f> {
+    unsafe_callees: &'a BTreeMap<String, Vec<(String, String)>>, // name -> params (name, type)
+    cur: &'a FnInfo<'f>,
+    pushes: &'a BTreeMap<String, Vec<(String, usize, Ctx)>>,     // collection text -> pushed id expression text, line, context there
+    sites: Vec<Site>,
+    mode_collect: bool,
+    collected: BTreeMap<String, Vec<(String, usize, Ctx)>>,
+    assigns: BTreeMap<String, Vec<(String, usize, Ctx)>>,         // variable -> assigned expression text
+}
+
+fn cond_disjuncts(e: &Expr, out: &mut Vec<Expr>) {
+    match strip_parens(e) {
+        Expr::Binary(b) if matches!(b.op, syn::BinOp::Or(_)) => {
+            cond_disjuncts(&b.left, out);
+            cond_disjuncts(&b.right, out);
+        }
+        x => out.push(x.clone()),
+    }
+}
+fn cond_conjuncts(e: &Expr, out: &mut Vec<Expr>) {
+    match strip_parens(e) {
+        Expr::Binary(b) if matches!(b.op, syn::BinOp::And(_)) => {
+            cond_conjuncts(&b.left, out);
+            cond_conjuncts(&b.right, out);
+        }
+        x => out.push(x.clone()),
+    }
+}
+/// `a >= b` negated gives a < b ;  `a < b` asserted gives a < b
+fn lt_of(e: &Expr, negated: bool) -> Option<(String, String)> {
+    if let Expr::Binary(b) = strip_parens(e) {
+        let (l, r) = (ntxt(&b.left), ntxt(&b.right));
+        return match (&b.op, negated) {
+            (syn::BinOp::Ge(_), true) => Some((l, r)),
+            (syn::BinOp::Le(_), true) => Some((r, l)),
+            (syn::BinOp::Lt(_), false) => Some((l, r)),
+            (syn::BinOp::Gt(_), false) => Some((r, l)),
+            _ => None,
+        };
+    }
+    None
+}
+fn block_diverges(b: &syn::Block) -> Option<&'static str> {
+    match b.stmts.last() {
+        Some(Stmt::Expr(Expr::Continue(_), _)) => Some("continue"),
+        Some(Stmt::Expr(Expr::Return(_), _)) => Some("return"),
+        Some(Stmt::Expr(Expr::Break(_), _)) => Some("break"),
+        _ => None,
+    }
+}
+fn pat_vars(p: &Pat, out: &mut Vec<String>) {
+    match p {
+        Pat::Ident(i) => out.push(i.ident.to_string()),
+        Pat::Reference(r) => pat_vars(&r.pat, out),
+        Pat::Tuple(t) => t.elems.iter().for_each(|x| pat_vars(x, out)),
+        Pat::TupleStruct(t) => t.elems.iter().for_each(|x| pat_vars(x, out)),
+        Pat::Type(t) => pat_vars(&t.pat, out),
+        Pat::Paren(p) => pat_vars(&p.pat, out),
+        _ => {}
+    }
+}
+/// receiver text of `X.iter()`, `X.iter().take(n)`, `X.iter().enumerate()`, `&X`, `X`
+fn iter_source(e: &Expr) -> String {
+    let mut cur = strip_parens(e);
+    loop {
+        match cur {
+            Expr::MethodCall(m) if ["iter", "take", "enumerate", "copied", "cloned", "rev", "skip"].contains(&m.method.to_string().as_str()) => cur = strip_parens(&m.receiver),
+            Expr::Reference(r) => cur = strip_parens(&r.expr),
+            _ => break,
+        }
+    }
+    ntxt(cur)
+}
+
+impl<'a, 'f> An<'a, 'f> {
+    fn is_node_count(&self, txt: &str, ctx: &Ctx) -> bool {
+        txt == "self.len()" || txt == "flat.len()" || ctx.binds.iter().any(|b| matches!(b, Bind::NodeCountAlias(n) if n == txt))
+    }
+    fn guarded_by_node_count(&self, id: &str, ctx: &Ctx) -> Option<Fact> {
+        ctx.facts.iter().rev().find(|f| f.lhs == id && self.is_node_count(&f.rhs, ctx)).cloned()
+    }
+
+    fn classify_id(&self, e: &Expr, ctx: &Ctx, depth: usize) -> (String, String) {
+        let t = ntxt(e);
+        if let Some(f) = self.guarded_by_node_count(&t, ctx) {
+            let kind = if f.how == "return" { "GEarlyReturn" } else { "GNodeCount" };
+            return (kind.into(), format!("`{} >= {}` => {} at line {}", t, f.rhs, f.how, f.line));
+        }
+        // x.dense_id where x was popped from a heap
+        if let Some(base) = t.strip_suffix(".dense_id") {
+            if let Some(Bind::PopFrom { heap, .. }) = ctx.binds.iter().rev().find(|b| matches!(b, Bind::PopFrom { var, .. } if var == base)) {
+                return self.provenance(heap, "GHeapProvenance", depth);
+            }
+        }
+        // loop variable over a collection
+        if let Some(Bind::IterOf { coll, .. }) = ctx.binds.iter().rev().find(|b| matches!(b, Bind::IterOf { var, .. } if *var == t)) {
+            let cleared = ctx.cleared.iter().any(|c| c.0 == *coll);
+            if !cleared {
+                return ("GNone".into(), format!("`{}` iterates `{}`, which is not cleared in this function before being filled", t, coll));
+            }
+            return self.provenance(coll, "GCollection", depth);
+        }
+        if let Some(Bind::Param(_)) = ctx.binds.iter().find(|b| matches!(b, Bind::Param(p) if *p == t)) {
+            if self.cur.unsafe_ {
+                return ("GParam".into(), format!("parameter `{}` of unsafe fn {}: the obligation is its callers' (each call is its own site)", t, self.cur.name));
+            }
+            return ("GNone".into(), format!("parameter `{}` of a SAFE function reaches an unchecked accessor without a guard", t));
+        }
+        ("GNone".into(), format!("no dominating guard found for `{}`", t))
+    }
+
+    /// every value pushed into `coll` in this function is a guarded id or a parameter (=> entry obligation)
+    fn provenance(&self, coll: &str, kind: &str, depth: usize) -> (String, String) {
+        if depth > 2 {
+            return ("GNone".into(), "provenance chain too deep".into());
+        }
+        let Some(ps) = self.pushes.get(coll) else { return ("GNone".into(), format!("no push into `{}` found in this function", coll)) };
+        let mut notes = Vec::new();
+        for (ex, line, pctx) in ps {
+            if let Some(f) = self.guarded_by_node_count(ex, pctx) {
+                notes.push(format!("push of `{}` at line {} guarded at line {}", ex, line, f.line));
+            } else if pctx.binds.iter().any(|b| matches!(b, Bind::Param(p) if p == ex)) {
+                notes.push(format!("push of parameter `{}` at line {} (entry obligation of the callers)", ex, line));
+            } else if let Some(base) = ex.strip_suffix(".dense_id") {
+                // re-push of an element popped from another heap of the same provenance
+                if let Some(Bind::PopFrom { heap, .. }) = pctx.binds.iter().rev().find(|b| matches!(b, Bind::PopFrom { var, .. } if var == base)) {
+                    let (k, n) = self.provenance(heap, kind, depth + 1);
+                    if k == "GNone" {
+                        return (k, n);
+                    }
+                    notes.push(format!("push of `{}` at line {} popped from `{}`", ex, line, heap));
+                } else {
+                    return ("GNone".into(), format!("push of `{}` at line {} is neither guarded nor a parameter", ex, line));
+                }
+            } else {
+                return ("GNone".into(), format!("push of `{}` at line {} is neither guarded nor a parameter", ex, line));
+            }
+        }
+        (kind.into(), format!("`{}` only ever receives: {}", coll, notes.join("; ")))
+    }
+
+    fn classify_idx(&self, e: &Expr, id_txt: &str, ctx: &Ctx) -> (String, String) {
+        let t = ntxt(e);
+        // for idx in 0..n, n = count_unchecked(same id)
+        if let Some(Bind::ForRange { hi, .. }) = ctx.binds.iter().rev().find(|b| matches!(b, Bind::ForRange { var, .. } if *var == t)) {
+            if let Some(Bind::CountOf { id, .. }) = ctx.binds.iter().rev().find(|b| matches!(b, Bind::CountOf { var, .. } if var == hi)) {
+                if id == id_txt {
+                    return ("GLoopBound".into(), format!("`{}` ranges over 0..{} and {} = count_unchecked({}) (<= cap by its `.min(self.cap)`)", t, hi, hi, id));
+                }
+                return ("GNone".into(), format!("loop bound `{}` is the count of `{}`, not of `{}`", hi, id, id_txt));
+            }
+            if let Some(Bind::Param(_)) = ctx.binds.iter().find(|b| matches!(b, Bind::Param(p) if p == hi)) {
+                if self.cur.unsafe_ {
+                    return ("GParam".into(), format!("`{}` < parameter `{}` of unsafe fn", t, hi));
+                }
+            }
+        }
+        // idx + K under `if idx + K < bound`
+        if let Some(f) = ctx.facts.iter().rev().find(|f| f.lhs == t) {
+            let bound_is_param = ctx.binds.iter().any(|b| matches!(b, Bind::Param(p) if *p == f.rhs));
+            let bound_is_count = ctx.binds.iter().any(|b| matches!(b, Bind::CountOf { var, id } if *var == f.rhs && id == id_txt));
+            if bound_is_count || (bound_is_param && self.cur.unsafe_) {
+                return ("GLookahead".into(), format!("`{} < {}` at line {} ({} is {})", t, f.rhs, f.line, f.rhs, if bound_is_count { "the node's count" } else { "a parameter: callers pass the node's count" }));
+            }
+        }
+        if let Some(Bind::Param(_)) = ctx.binds.iter().find(|b| matches!(b, Bind::Param(p) if *p == t)) {
+            if self.cur.unsafe_ {
+                return ("GParam".into(), format!("parameter `{}` of unsafe fn", t));
+            }
+        }
+        ("GNone".into(), format!("no bound found for index `{}`", t))
+    }
+
+    fn classify_count(&self, e: &Expr, id_txt: &str, ctx: &Ctx) -> (String, String) {
+        let t = ntxt(e);
+        if ctx.binds.iter().any(|b| matches!(b, Bind::CountOf { var, id } if *var == t && id == id_txt)) {
+            return ("GCountOfNode".into(), format!("`{}` = count_unchecked({})", t, id_txt));
+        }
+        ("GNone".into(), format!("`{}` is not the count of node `{}`", t, id_txt))
+    }
+
+    fn site(&mut self, callee: &str, args: Vec<&Expr>, line: usize, ctx: &Ctx) {
+        let Some(params) = self.unsafe_callees.get(callee) else { return };
+        let mut out = Vec::new();
+        // the id argument (first u32 parameter) is the reference for idx / count classification
+        let id_pos = params.iter().position(|p| p.1 == "u32");
+        let id_txt = id_pos.and_then(|p| args.get(p)).map(|e| ntxt(e)).unwrap_or_default();
+        for (i, (pn, pt)) in params.iter().enumerate() {
+            let Some(a) = args.get(i) else { continue };
+            match (pt.as_str(), pn.as_str()) {
+                ("u32", _) => {
+                    let (mut k, mut why) = self.classify_id(a, ctx, 0);
+                    if callee == "mark_if_unvisited_unchecked" && k != "GNone" && k != "GParam" {
+                        // the bitset must have been sized for the same node count, and not shrunk since
+                        let bound = self.guarded_by_node_count(&ntxt(a), ctx).map(|f| f.rhs).unwrap_or_default();
+                        if ctx.prepared.iter().any(|p| p.0 == bound || (self.is_node_count(&p.0, ctx) && self.is_node_count(&bound, ctx))) {
+                            k = "GNodeCountPrepared".into();
+                            why = format!("{}; scratch.prepare({}, ..) at line {}", why, bound, ctx.prepared.last().map(|p| p.1).unwrap_or(0));
+                        } else {
+                            k = "GNone".into();
+                            why = format!("{} — but no scratch.prepare({}, ..) precedes", why, bound);
+                        }
+                    }
+                    out.push((pn.clone(), "id".to_string(), k, why));
+                }
+                ("usize", "idx") => {
+                    let (k, why) = self.classify_idx(a, &id_txt, ctx);
+                    out.push((pn.clone(), "idx".to_string(), k, why));
+                }
+                ("usize", "neighbor_count") => {
+                    let (k, why) = self.classify_count(a, &id_txt, ctx);
+                    out.push((pn.clone(), "count".to_string(), k, why));
+                }
+                _ => {}
+            }
+        }
+        self.sites.push(Site { func: self.cur.name.clone(), func_unsafe: self.cur.unsafe_, callee: callee.to_string(), line, args: out });
+    }
+
+    fn scan_expr(&mut self, e: &Expr, ctx: &mut Ctx) {
+        // find calls (in evaluation order is irrelevant here)
+        match e {
+            Expr::MethodCall(m) => {
+                self.scan_expr(&m.receiver, ctx);
+                for a in &m.args {
+                    self.scan_expr(a, ctx);
+                }
+                let n = m.method.to_string();
+                let recv = ntxt(&m.receiver);
+                if n == "prepare" && recv.ends_with("scratch") {
+                    if let Some(a0) = m.args.first() {
+                        ctx.prepared.push((ntxt(a0), line_of(m)));
+                    }
+                }
+                if n == "finish_query" {
+                    ctx.prepared.clear();
+                }
+                if n == "clear" && m.args.is_empty() {
+                    ctx.cleared.push((recv.clone(), line_of(m)));
+                }
+                if n == "push" && m.args.len() == 1 {
+                    // id pushed: Struct { dense_id: E, .. }  |  E  |  (E, _)
+                    let a = strip_parens(&m.args[0]);
+                    let id_expr: Option<String> = match a {
+                        Expr::Struct(s) => s.fields.iter().find(|f| src_of(&f.member) == "dense_id").map(|f| ntxt(&f.expr)),
+                        Expr::Tuple(t) => t.elems.first().map(ntxt),
+                        other => Some(ntxt(other)),
+                    };
+                    if let Some(ie) = id_expr {
+                        if self.mode_collect {
+                            self.collected.entry(recv.clone()).or_default().push((ie, line_of(m), ctx.clone()));
+                        }
+                    }
+                }
+                if self.unsafe_callees.contains_key(&n) && !self.mode_collect {
+                    self.site(&n, m.args.iter().collect(), line_of(m), ctx);
+                }
+            }
+            Expr::Call(c) => {
+                for a in &c.args {
+                    self.scan_expr(a, ctx);
+                }
+            }
+            Expr::Unsafe(u) => self.block(&u.block, ctx),
+            Expr::Block(b) => self.block(&b.block, ctx),
+            Expr::Paren(p) => self.scan_expr(&p.expr, ctx),
+            Expr::Reference(r) => self.scan_expr(&r.expr, ctx),
+            Expr::Unary(u) => self.scan_expr(&u.expr, ctx),
+            Expr::Cast(c) => self.scan_expr(&c.expr, ctx),
+            Expr::Binary(b) => {
+                self.scan_expr(&b.left, ctx);
+                self.scan_expr(&b.right, ctx);
+            }
+            Expr::Field(f) => self.scan_expr(&f.base, ctx),
+            Expr::Index(i) => {
+                self.scan_expr(&i.expr, ctx);
+                self.scan_expr(&i.index, ctx);
+            }
+            Expr::Tuple(t) => t.elems.iter().for_each(|x| self.scan_expr(x, ctx)),
+            Expr::Struct(s) => s.fields.iter().for_each(|f| self.scan_expr(&f.expr, ctx)),
+            Expr::Return(r) => {
+                if let Some(x) = &r.expr {
+                    self.scan_expr(x, ctx)
+                }
+            }
+            Expr::Assign(a) => {
+                self.scan_expr(&a.right, ctx);
+                if let Some(id) = path_ident(&a.left) {
+                    // a re-assigned variable loses the facts known about it
+                    ctx.facts.retain(|f| f.lhs != id);
+                    if self.mode_collect {
+                        self.assigns.entry(id).or_default().push((ntxt(&a.right), line_of(a), ctx.clone()));
+                    }
+                }
+            }
+            Expr::Closure(c) => {
+                let mut inner = ctx.clone();
+                self.scan_expr(&c.body, &mut inner);
+            }
+            Expr::If(i) => self.if_expr(i, ctx),
+            Expr::ForLoop(f) => {
+                self.scan_expr(&f.expr, ctx);
+                let mut inner = ctx.clone();
+                let mut vars = Vec::new();
+                pat_vars(&f.pat, &mut vars);
+                for v in &vars {
+                    inner.facts.retain(|x| x.lhs != *v);
+                }
+                let it = strip_parens(&f.expr);
+                if let Expr::Range(r) = it {
+                    if let (Some(v), Some(hi)) = (vars.first(), &r.end) {
+                        let zero = r.start.as_ref().map(|s| ntxt(s) == "0").unwrap_or(false);
+                        if zero && matches!(r.limits, syn::RangeLimits::HalfOpen(_)) {
+                            inner.binds.push(Bind::ForRange { var: v.clone(), hi: ntxt(hi) });
+                        }
+                    }
+                } else {
+                    let src = iter_source(it);
+                    let enumerate = quote::ToTokens::to_token_stream(it).to_string().contains("enumerate");
+                    // with enumerate the pattern is (idx, &x): the element variable is the second
+                    let elem = if enumerate { vars.get(1) } else { vars.first() };
+                    if let Some(v) = elem {
+                        inner.binds.push(Bind::IterOf { var: v.clone(), coll: src });
+                    }
+                }
+                self.block(&f.body, &mut inner);
+                // facts established inside do not survive; clears/prepares do
+                ctx.cleared = inner.cleared;
+            }
+            Expr::While(w) => {
+                let mut inner = ctx.clone();
+                if let Expr::Let(l) = strip_parens(&w.cond) {
+                    let mut vars = Vec::new();
+                    pat_vars(&l.pat, &mut vars);
+                    if let Expr::MethodCall(m) = strip_parens(&l.expr) {
+                        if m.method == "pop" {
+                            if let Some(v) = vars.first() {
+                                inner.binds.push(Bind::PopFrom { var: v.clone(), heap: ntxt(&m.receiver) });
+                            }
+                        }
+                    }
+                } else {
+                    self.scan_expr(&w.cond, &mut inner);
+                }
+                self.block(&w.body, &mut inner);
+            }
+            Expr::Loop(l) => {
+                let mut inner = ctx.clone();
+                self.block(&l.body, &mut inner);
+            }
+            Expr::Match(m) => {
+                self.scan_expr(&m.expr, ctx);
+                for arm in &m.arms {
+                    let mut inner = ctx.clone();
+                    self.scan_expr(&arm.body, &mut inner);
+                }
+            }
+            _ => {}
+        }
+    }
+
+    fn if_expr(&mut self, i: &syn::ExprIf, ctx: &mut Ctx) {
+        let cond = strip_parens(&i.cond);
+        let mut then_ctx = ctx.clone();
+        if let Expr::Let(l) = cond {
+            self.scan_expr(&l.expr, ctx);
+            let mut vars = Vec::new();
+            pat_vars(&l.pat, &mut vars);
+            if let Expr::MethodCall(m) = strip_parens(&l.expr) {
+                if m.method == "first" {
+                    if let Some(v) = vars.first() {
+                        then_ctx.binds.push(Bind::FirstOf { var: v.clone(), coll: ntxt(&m.receiver) });
+                    }
+                }
+            }
+        } else {
+            self.scan_expr(cond, ctx);
+            let mut cj = Vec::new();
+            cond_conjuncts(cond, &mut cj);
+            for c in &cj {
+                if let Some((l, r)) = lt_of(c, false) {
+                    then_ctx.facts.push(Fact { lhs: l, rhs: r, line: line_of(i), how: "if".into() });
+                }
+            }
+        }
+        self.block(&i.then_branch, &mut then_ctx);
+        if let Some((_, eb)) = &i.else_branch {
+            let mut ec = ctx.clone();
+            self.scan_expr(eb, &mut ec);
+        }
+        // `if A || B { continue }` : afterwards not A and not B
+        if i.else_branch.is_none() && !matches!(cond, Expr::Let(_)) {
+            if let Some(how) = block_diverges(&i.then_branch) {
+                let mut dj = Vec::new();
+                cond_disjuncts(cond, &mut dj);
+                for d in &dj {
+                    if let Some((l, r)) = lt_of(d, true) {
+                        ctx.facts.push(Fact { lhs: l, rhs: r, line: line_of(i), how: how.into() });
+                    }
+                }
+            } else {
+                // `if entry as usize >= self.len() { entry = 0; }` : the clamp
+                let mut dj = Vec::new();
+                cond_disjuncts(cond, &mut dj);
+                if dj.len() == 1 && i.then_branch.stmts.len() == 1 {
+                    if let (Some((l, r)), Stmt::Expr(Expr::Assign(a), _)) = (lt_of(&dj[0], true), &i.then_branch.stmts[0]) {
+                        if path_ident(&a.left).as_deref() == Some(l.as_str()) && ntxt(&a.right) == "0" {
+                            ctx.facts.push(Fact { lhs: l, rhs: r, line: line_of(i), how: "clamp-to-0".into() });
+                        }
+                    }
+                }
+            }
+        }
+        ctx.cleared = then_ctx.cleared.clone();
+        if !then_ctx.prepared.is_empty() && ctx.prepared.is_empty() {
+            // conservative: a prepare inside a branch does not count afterwards
+        }
+    }
+
+    fn block(&mut self, b: &syn::Block, ctx: &mut Ctx) {
+        for st in &b.stmts {
+            match st {
+                Stmt::Local(l) => {
+                    let mut vars = Vec::new();
+                    pat_vars(&l.pat, &mut vars);
+                    if let Some(init) = &l.init {
+                        self.scan_expr(&init.expr, ctx);
+                        if let Some((_, d)) = &init.diverge {
+                            let mut c2 = ctx.clone();
+                            self.scan_expr(d, &mut c2);
+                        }
+                        let it = strip_casts(&init.expr);
+                        let t = ntxt(it);
+                        for v in &vars {
+                            ctx.facts.retain(|f| f.lhs != *v);
+                        }
+                        if let Some(v) = vars.first() {
+                            if t == "self.len()" || t == "flat.len()" {
+                                ctx.binds.push(Bind::NodeCountAlias(v.clone()));
+                            } else if let Expr::MethodCall(m) = it {
+                                if m.method == "count_unchecked" && m.args.len() == 1 {
+                                    ctx.binds.push(Bind::CountOf { var: v.clone(), id: ntxt(&m.args[0]) });
+                                } else if matches!(&l.pat, Pat::Tuple(_)) {
+                                    ctx.binds.push(Bind::TupleFromCall { var: v.clone(), callee: m.method.to_string() });
+                                } else {
+                                    ctx.binds.push(Bind::Other(v.clone()));
+                                }
+                            } else {
+                                ctx.binds.push(Bind::Other(v.clone()));
+                            }
+                            if self.mode_collect {
+                                self.assigns.entry(v.clone()).or_default().push((t, line_of(l), ctx.clone()));
+                            }
+                        }
+                    }
+                }
+                Stmt::Expr(e, _) => self.scan_expr(e, ctx),
+                Stmt::Macro(_) | Stmt::Item(_) => {}
+            }
+        }
+    }
+}
+
+pub struct Out {
+    pub coq: String,
+    pub report: serde_json::Value,
+}
+
+fn coq_str(s: &str) -> String {
+    format!("\"{}\"%string", s.replace('"', "'"))
+}
+
+pub fn run(repo: &str) -> Res<Out> {
+    let path = format!("{}/engine/src/ann_backend.rs", repo);
+    set_file(&path);
+    let file = parse_file(&path)?;
+    // all functions outside #[cfg(test)]
+    let mut fns: Vec<FnInfo> = Vec::new();
+    for it in &file.items {
+        match it {
+            syn::Item::Fn(f) if !has_attr_cfg(&f.attrs, "test") => {
+                fns.push(FnInfo { name: f.sig.ident.to_string(), owner: String::new(), unsafe_: f.sig.unsafety.is_some(), params: sig_params(&f.sig), block: &f.block, line: line_of(&f.sig) });
+            }
+            syn::Item::Impl(im) => {
+                let owner = src_of(&*im.self_ty);
+                for ii in &im.items {
+                    if let syn::ImplItem::Fn(f) = ii {
+                        if has_attr_cfg(&f.attrs, "test") {
+                            continue;
+                        }
+                        fns.push(FnInfo { name: f.sig.ident.to_string(), owner: owner.clone(), unsafe_: f.sig.unsafety.is_some(), params: sig_params(&f.sig), block: &f.block, line: line_of(&f.sig) });
+                    }
+                }
+            }
+            _ => {}
+        }
+    }
+    let mut unsafe_callees: BTreeMap<String, Vec<(String, String)>> = BTreeMap::new();
+    let mut name_count: BTreeMap<String, usize> = BTreeMap::new();
+    for f in &fns {
+        *name_count.entry(f.name.clone()).or_default() += 1;
+    }
+    for f in &fns {
+        if f.unsafe_ {
+            // two unsafe fns of the same name (FlatGraph::vector_at_unchecked / PackedLevel0::vector_at_unchecked)
+            // must agree on the parameter list for the by-name matching to be sound
+            if let Some(prev) = unsafe_callees.get(&f.name) {
+                if *prev != f.params {
+                    return fail_at(f.line, &f.name, "two unsafe fns share a name but not a parameter list");
+                }
+            }
+            unsafe_callees.insert(f.name.clone(), f.params.clone());
+        }
+    }
+    // a safe function must not share its name with an unsafe one (method calls are matched by name)
+    for f in &fns {
+        if !f.unsafe_ && unsafe_callees.contains_key(&f.name) {
+            return fail_at(f.line, &f.name, "a safe function shares its name with an unsafe fn (call sites are matched by name)");
+        }
+    }
+
+    let mut sites: Vec<Site> = Vec::new();
+    let mut entry_fns: BTreeSet<String> = BTreeSet::new();
+    for f in &fns {
+        let mut ctx0 = Ctx::default();
+        for (pn, _) in &f.params {
+            ctx0.binds.push(Bind::Param(pn.clone()));
+        }
+        // pass 1: collect pushes / assignments with their contexts
+        let empty = BTreeMap::new();
+        let mut a1 = An { unsafe_callees: &unsafe_callees, cur: f, pushes: &empty, sites: vec![], mode_collect: true, collected: BTreeMap::new(), assigns: BTreeMap::new() };
+        let mut c1 = ctx0.clone();
+        a1.block(f.block, &mut c1);
+        let pushes = a1.collected;
+        // pass 2: classify
+        let mut a2 = An { unsafe_callees: &unsafe_callees, cur: f, pushes: &pushes, sites: vec![], mode_collect: false, collected: BTreeMap::new(), assigns: BTreeMap::new() };
+        let mut c2 = ctx0.clone();
+        a2.block(f.block, &mut c2);
+        for s in &a2.sites {
+            if s.args.iter().any(|a| a.3.contains("entry obligation")) {
+                entry_fns.insert(f.name.clone());
+            }
+        }
+        sites.extend(a2.sites);
+    }
+
+    // entry obligations: functions whose heap is seeded with their `entry` parameter.  Every call must pass a
+    // variable that is clamped (`if e as usize >= X.len() { e = 0; }`) and afterwards only re-assigned from
+    // the id returned by greedy_descent_layer / the first result of search_at_layer_into.
+    let mut entry_sites = Vec::new();
+    let id_returning: BTreeSet<&str> = ["greedy_descent_layer"].into_iter().collect();
+    for f in &fns {
+        struct Calls<'x> {
+            targets: &'x BTreeSet<String>,
+            found: Vec<(String, Vec<String>, usize)>,
+        }
+        impl<'x, 'ast> syn::visit::Visit<'ast> for Calls<'x> {
+            fn visit_expr_method_call(&mut self, m: &'ast syn::ExprMethodCall) {
+                let n = m.method.to_string();
+                if self.targets.contains(&n) {
+                    self.found.push((n, m.args.iter().map(ntxt).collect(), line_of(m)));
+                }
+                syn::visit::visit_expr_method_call(self, m);
+            }
+        }
+        let mut cs = Calls { targets: &entry_fns, found: vec![] };
+        syn::visit::Visit::visit_block(&mut cs, f.block);
+        if cs.found.is_empty() {
+            continue;
+        }
+        // gather facts about assignments in this function
+        let empty = BTreeMap::new();
+        let mut a1 = An { unsafe_callees: &unsafe_callees, cur: f, pushes: &empty, sites: vec![], mode_collect: true, collected: BTreeMap::new(), assigns: BTreeMap::new() };
+        let mut c1 = Ctx::default();
+        for (pn, _) in &f.params {
+            c1.binds.push(Bind::Param(pn.clone()));
+        }
+        a1.block(f.block, &mut c1);
+        let body_txt = norm(&quote::ToTokens::to_token_stream(f.block).to_string());
+        for (callee, args, line) in cs.found {
+            let callee_fn = fns.iter().find(|x| x.name == callee).unwrap();
+            let Some(pos) = callee_fn.params.iter().position(|p| p.0 == "entry") else { continue };
+            let var = args.get(pos).cloned().unwrap_or_default();
+            let mut kind = "GNone".to_string();
+            let mut why;
+            // is it a parameter of a function that is itself an entry function? then forwarded
+            if f.params.iter().any(|p| p.0 == var) && entry_fns.contains(&f.name) {
+                kind = "GEntryForwarded".into();
+                why = format!("`{}` is this function's own entry parameter", var);
+            } else {
+                let clamp_a = format!("if{}>=self.len(){{{}=0;}}", var, var);
+                let clamp_b = format!("if{}>=flat.len(){{{}=0;}}", var, var);
+                let clamped = body_txt.contains(&clamp_a) || body_txt.contains(&clamp_b);
+                let mut ok = clamped;
+                let mut notes = vec![if clamped { "clamped to 0 when >= len()".to_string() } else { "NO clamp `if e as usize >= len() { e = 0; }` found".to_string() }];
+                for (rhs, l, actx) in a1.assigns.get(&var).cloned().unwrap_or_default() {
+                    if rhs == "0" {
+                        continue;
+                    }
+                    if rhs.contains("entry_by_layer[") {
+                        notes.push(format!("initialised from entry_by_layer at line {} (arbitrary value, hence the clamp)", l));
+                        continue;
+                    }
+                    let from_tuple = actx.binds.iter().any(|b| matches!(b, Bind::TupleFromCall { var: v, callee: c } if *v == rhs && id_returning.contains(c.as_str())));
+                    let from_first = actx.binds.iter().any(|b| matches!(b, Bind::FirstOf { var: v, .. } if *v == rhs));
+                    if from_tuple {
+                        notes.push(format!("`{} = {}` at line {}: id returned by greedy_descent_layer", var, rhs, l));
+                    } else if from_first {
+                        notes.push(format!("`{} = {}` at line {}: first result of search_at_layer_into", var, rhs, l));
+                    } else {
+                        ok = false;
+                        notes.push(format!("`{} = {}` at line {}: source not recognised", var, rhs, l));
+                    }
+                }
+                if ok {
+                    kind = "GEntryClamped".into();
+                }
+                why = notes.join("; ");
+            }
+            entry_sites.push(Site { func: f.name.clone(), func_unsafe: f.unsafe_, callee: callee.clone(), line, args: vec![("entry".into(), "entry".into(), kind, std::mem::take(&mut why))] });
+        }
+    }
+    // greedy_descent_layer returns `current`: every assignment to it must be a guarded id
+    let mut returns_ok = Vec::new();
+    if let Some(g) = fns.iter().find(|f| f.name == "greedy_descent_layer") {
+        let empty = BTreeMap::new();
+        let mut a1 = An { unsafe_callees: &unsafe_callees, cur: g, pushes: &empty, sites: vec![], mode_collect: true, collected: BTreeMap::new(), assigns: BTreeMap::new() };
+        let mut c1 = Ctx::default();
+        for (pn, _) in &g.params {
+            c1.binds.push(Bind::Param(pn.clone()));
+        }
+        a1.block(g.block, &mut c1);
+        let mut ok = true;
+        let mut notes = Vec::new();
+        for (rhs, l, actx) in a1.assigns.get("current").cloned().unwrap_or_default() {
+            if a1.guarded_by_node_count(&rhs, &actx).is_some() {
+                notes.push(format!("current = {} at line {} (guarded)", rhs, l));
+            } else {
+                ok = false;
+                notes.push(format!("current = {} at line {} NOT guarded", rhs, l));
+            }
+        }
+        returns_ok.push(Site { func: "greedy_descent_layer".into(), func_unsafe: false, callee: "(returned id)".into(), line: g.line,
+            args: vec![("current".into(), "returned".into(), if ok { "GReturnsGuarded".into() } else { "GNone".into() }, notes.join("; "))] });
+    } else {
+        return fail_at(0, "greedy_descent_layer", "function not found");
+    }
+
+    // structural facts used by the proofs' hypotheses
+    let body_of = |name: &str| fns.iter().find(|f| f.name == name).map(|f| norm(&quote::ToTokens::to_token_stream(f.block).to_string())).unwrap_or_default();
+    let connect = body_of("connect_with_layer_neighbors_with_scratch");
+    let push_then_origin = match (connect.find("self.level0.push_node("), connect.find("self.dense_to_origin.push(")) {
+        (Some(a), Some(b)) => a < b && !connect[a..b].contains("return"),
+        _ => false,
+    };
+    let new_single = body_of("new_single");
+    let new_single_ok = new_single.contains("level0.push_node(embedding)") && new_single.contains("dense_to_origin:vec![doc_id]");
+    let whole = norm(&quote::ToTokens::to_token_stream(&file).to_string());
+    let cut = whole.find("modtests{").unwrap_or(whole.len());
+    let prod = &whole[..cut];
+    let origin_mutations = prod.matches("dense_to_origin.push(").count() + prod.matches("dense_to_origin.pop(").count() + prod.matches("dense_to_origin.clear(").count()
+        + prod.matches("dense_to_origin.truncate(").count() + prod.matches("dense_to_origin.remove(").count() + prod.matches("dense_to_origin.swap_remove(").count() + prod.matches("dense_to_origin.drain(").count();
+    let flat_literals = prod.matches("dense_to_origin:").count(); // struct field init sites (+1 for the declaration)
+    let len_is_origin = body_of("len"); // ambiguous by name: check FlatGraph::len separately
+    let flat_len_ok = fns.iter().any(|f| f.owner == "FlatGraph" && f.name == "len" && norm(&quote::ToTokens::to_token_stream(f.block).to_string()) == "{self.dense_to_origin.len()}");
+    let _ = len_is_origin;
+    let len_invariant_ok = push_then_origin && new_single_ok && origin_mutations == 1 && flat_literals == 2 && flat_len_ok;
+
+    // dimension guards for the raw kernel calls (the kernel wrappers only debug_assert equal lengths)
+    let hn_path = format!("{}/engine/src/hnsw_index.rs", repo);
+    set_file(&hn_path);
+    let hn = parse_file(&hn_path)?;
+    let hn_txt = norm(&quote::ToTokens::to_token_stream(&hn).to_string());
+    let q_guard = hn_txt.contains("ifquery.len()!=self.dimension{anyhow::bail!(");
+    let q_order = match (hn_txt.find("ifquery.len()!=self.dimension{"), hn_txt.find(".search_with_cancel(")) {
+        (Some(a), Some(b)) => a < b,
+        _ => false,
+    };
+    set_file(&path);
+    let ins = body_of("insert_into_existing_flat_with_scratch");
+    let ins_guard = ins.contains("embedding.len()!=flat.dimension{return;}") && ins.find("embedding.len()!=flat.dimension").unwrap_or(usize::MAX) < ins.find("flat.distance_to(").unwrap_or(0);
+    let dist_sites: Vec<(String, usize, String)> = {
+        struct D(Vec<(String, usize)>);
+        impl<'ast> syn::visit::Visit<'ast> for D {
+            fn visit_expr_method_call(&mut self, m: &'ast syn::ExprMethodCall) {
+                if m.method == "distance" && ntxt(&m.receiver).ends_with("distance_kernel") {
+                    self.0.push((m.args.iter().map(ntxt).collect::<Vec<_>>().join(","), line_of(m)));
+                }
+                syn::visit::visit_expr_method_call(self, m);
+            }
+        }
+        let mut out = Vec::new();
+        for f in &fns {
+            let mut d = D(vec![]);
+            syn::visit::Visit::visit_block(&mut d, f.block);
+            for (a, l) in d.0 {
+                out.push((f.name.clone(), l, a));
+            }
+        }
+        out
+    };
+    let dimension_ok = q_guard && q_order && ins_guard;
+
+    // ---- emit
+    let all: Vec<&Site> = sites.iter().chain(entry_sites.iter()).chain(returns_ok.iter()).collect();
+    let mut coq = String::new();
+    coq.push_str("(* GENERATED by harness/p/xl17 (target guards) from engine/src/ann_backend.rs (+ hnsw_index.rs) — do not edit.\n   One entry per (call of an unsafe fn, argument): which guard in the enclosing function makes the argument valid. *)\n");
+    coq.push_str("From Coq Require Import NArith List String Bool.\nImport ListNotations.\nOpen Scope N_scope.\n\n");
+    coq.push_str("Inductive guard_kind : Type :=\n  | GNodeCount | GNodeCountPrepared | GEarlyReturn | GLoopBound | GLookahead | GCountOfNode | GHeapProvenance | GCollection\n  | GParam | GEntryClamped | GEntryForwarded | GReturnsGuarded | GNone.\n");
+    coq.push_str("Definition is_none (g : guard_kind) : bool := match g with GNone => true | _ => false end.\n");
+    coq.push_str("Record site : Type := mk_site { s_fn : string; s_callee : string; s_arg : string; s_line : N; s_guard : guard_kind }.\n\n");
+    coq.push_str("Definition sites : list site :=\n  [");
+    let mut rows = Vec::new();
+    let mut rep_sites = Vec::new();
+    let mut none_found = Vec::new();
+    for s in &all {
+        for (pn, role, kind, why) in &s.args {
+            rows.push(format!("mk_site {} {} {} {} {}", coq_str(&s.func), coq_str(&s.callee), coq_str(pn), s.line, kind));
+            rep_sites.push(json!({"function": s.func, "unsafe_fn": s.func_unsafe, "callee": s.callee, "line": s.line, "argument": pn, "role": role, "guard": kind, "why": why}));
+            if kind == "GNone" {
+                none_found.push(format!("{}:{} {} -> {}({}): {}", path, s.line, s.func, s.callee, pn, why));
+            }
+        }
+    }
+    coq.push_str(&rows.join(";\n   "));
+    coq.push_str("].\n\n");
+    coq.push_str("Definition all_sites_guarded : bool := forallb (fun s => negb (is_none (s_guard s))) sites.\n");
+    coq.push_str("(* (function, unsafe callee) pairs, for the coverage check against the hand model *)\nDefinition site_pairs : list (string * string) := map (fun s => (s_fn s, s_callee s)) sites.\n\n");
+    coq.push_str(&format!("(* FlatGraph::len() is dense_to_origin.len(); level0.push_node precedes the only dense_to_origin.push, no early exit between; the only other\n   construction is new_single (one push_node, vec![doc_id]) — so level0.len() >= FlatGraph::len() >= 1 whenever a search runs *)\nDefinition len_invariant_structure_ok : bool := {}.\n", len_invariant_ok));
+    coq.push_str(&format!("(* raw kernel calls get equal-length slices: query.len() == dimension is checked before search_with_cancel (hnsw_index.rs) and\n   embedding.len() == flat.dimension before the first distance_to of an insert; stored vectors all have `dimension` words *)\nDefinition dimension_guards_ok : bool := {}.\n", dimension_ok));
+    coq.push_str(&format!("Definition site_count : N := {}.\n", rows.len()));
+
+    let report = json!({
+        "ok": none_found.is_empty() && len_invariant_ok && dimension_ok,
+        "source": path, "sites": rep_sites, "site_count": rows.len(), "none_found": none_found,
+        "unsafe_fns": unsafe_callees.keys().collect::<Vec<_>>(),
+        "entry_functions": entry_fns.iter().collect::<Vec<_>>(),
+        "len_invariant": {"ok": len_invariant_ok, "push_node_before_origin_push": push_then_origin, "new_single_ok": new_single_ok, "dense_to_origin_mutation_sites": origin_mutations, "flat_len_is_origin_len": flat_len_ok},
+        "dimension": {"ok": dimension_ok, "query_guard_in_hnsw_index": q_guard, "query_guard_before_backend_search": q_order, "insert_guard_before_first_distance": ins_guard,
+                      "kernel_call_sites": dist_sites.iter().map(|d| json!({"function": d.0, "line": d.1, "args": d.2})).collect::<Vec<_>>()},
+        "summary": format!("{} guarded arguments at {} call sites of unsafe fns, {} without a guard", rows.len(), all.len(), none_found.len()),
+    });
+    Ok(Out { coq, report })
+}
+
+fn sig_params(sig: &syn::Signature) -> Vec<(String, String)> {
+    let mut v = Vec::new();
+    for a in &sig.inputs {
+        if let syn::FnArg::Typed(pt) = a {
+            v.push((src_of(&pt.pat).replace("mut ", ""), src_of(&pt.ty).replace(' ', "")));
+        }
+    }
+    v
+}
